@@ -1934,6 +1934,9 @@ fn exec_note_n(song: &mut Song, t: &Token) {
     let v = trk!(song).calc_v_on_note(v);
     let t = trk!(song).calc_t_on_note(t);
     let qlen = trk!(song).calc_qlen_on_note(qlen);
+    trk!(song).calc_o_on_note(-1); // consume only: `n` is an absolute note number
+    let notelen_on_note = trk!(song).calc_l_on_note(-1);
+    let notelen = if notelen_on_note != -1 { notelen_on_note } else { notelen };
     // Random
     let v = if trk!(song).v_rand > 0 {
         song.calc_rand_value(v, trk!(song).v_rand)
@@ -1962,6 +1965,8 @@ fn exec_note_n(song: &mut Song, t: &Token) {
         v,
     );
     // println!("- {}: note(no={},len={},qlen={},v={},t={})", trk!(song).timepos, notelen_real, notelen, qlen, v, t);
+    // onNote event
+    trk!(song).write_cc_on_note(start_pos);
     // onNoteWave event
     trk!(song).write_cc_on_note_wave(start_pos);
     // write event
